@@ -1,4 +1,5 @@
 import TinysetModel.Proofs.InsertSrc
+import TinysetModel.Proofs.TinyInsertSrc
 import TinysetModel.Proofs.RemoveSrc
 import TinysetModel.Proofs.ContainsSrc
 import TinysetModel.Proofs.Loops
@@ -296,6 +297,26 @@ theorem dispatch_is_the_source_u32 (bits : Nat) :
     Gen.layout_32 bits = (if isDense cfg32 bits then 1 else if isPlain cfg32 bits then 0 else 2) ∧
     Gen.layout_mut_32 bits = Gen.layout_32 bits := layout_32_eq bits
 
+/-- `SetU32::remove` on a heap block as it is in the current source: the dispatch of `internal_mut()` (translated),
+then the arm (translated) -/
+def srcRemoveHeap32 (e sz bits : Nat) (a : Tbl) : Except String ((Bool × Nat) × Array Nat) :=
+  match Gen.layout_mut_32 bits with
+  | 0 => Gen.remove_big_32 e sz bits a
+  | 1 => Gen.remove_dense_32 e sz a
+  | _ => Gen.remove_heap_32 e sz bits a
+
+/-- on every well-formed heap representation the model's `remove` returns what the source's `remove` — dispatch and arm,
+both translated on this run — returns: answer, member count, slice (the inline arm is `collect()` of the rest) -/
+theorem remove_whole_is_the_source_u32 {D : Type} (g : Rng D) (fuel e sz cap bits : Nat) (a : Tbl) (he : e < 2 ^ 32) (hn : a.size ≤ 2 ^ 31)
+    (wf : WF cfg32 (.heap sz cap bits a)) (d : D) :
+    remove cfg32 g fuel (.heap sz cap bits a) e d = armOut cap bits d (srcRemoveHeap32 e sz bits a) := by
+  have hl : Gen.layout_mut_32 bits = Gen.layout_32 bits := (layout_32_eq bits).2
+  rcases layout_32_cases bits with ⟨hb, h1⟩ | ⟨hb, h1⟩ | ⟨hb, h1⟩ <;> simp only [srcRemoveHeap32, hl, h1]
+  · subst hb
+    exact remove_dense_32_eq g fuel e sz cap a (heap_cap_of_wf cfg32_ok wf).1 d
+  · exact remove_big_32_eq g fuel e sz cap bits a hb hn d
+  · exact remove_heap_32_eq g fuel e sz cap bits a he hb hn d
+
 /-- `SetU32::contains` as it is in the current source: `internal()` tells the five views apart (modelled by the
 constructors of `Rp` and the `bits` word: 32 dense, 1..31 bitmap table, otherwise plain table), then the arm's code
 as translated on every run -/
@@ -356,6 +377,18 @@ theorem insert_placeholder_is_the_source_u32 {D : Type} (g : Rng D) (fuel sz cap
     (h : Gen.insert_bigfull_32 bits sz bits a (modW cfg32 (g.draw d cap bits).1) = .ok res) :
     insert cfg32 g (fuel + 1) (.heap sz cap bits a) bits d = armOutB cap (g.draw d cap bits).2 (.ok res) :=
   SC.insert_placeholder_is_the_source_u32 g fuel sz cap bits a hb d hsmall h
+
+/-- **`insert` on an empty or inline set is the source's**: the `Empty` and `Stack` arms of `SetU32::insert` up to the
+point where the set has to leave the word — `Tiny::from_singleton` / `Tiny::insert` (translated in full:
+`inline_insert_is_the_source_u32`, C10) and `to_usize`, with the glue `*self = SetU32(newt.to_usize() as *mut S); return
+newt.sz != t.sz` pinned by shape —: whenever the translated arm yields a new tagged word and an answer, the model's
+`insert` returns that answer and an inline set whose tagged word is that word, the generator untouched -/
+theorem insert_inline_is_the_source_u32 {D : Type} (g : Rng D) (fuel e : Nat) (he : e < 2 ^ 32) (d : D) (w : Nat) (b : Bool) :
+    (Gen.insert_empty_32 e = some (w, b) →
+      ∃ t', insert cfg32 g (fuel + 1) .empty e d = .ok ((.stack t', b), d) ∧ TinyC.toWord TinyC.codec32 t' = w) ∧
+    (∀ t, WF cfg32 (.stack t) → Gen.insert_stack_32 t.sz t.bits e = .ok (some (w, b)) →
+      ∃ t', insert cfg32 g (fuel + 1) (.stack t) e d = .ok ((.stack t', b), d) ∧ TinyC.toWord TinyC.codec32 t' = w) :=
+  ⟨fun h => insert_empty_32_eq g fuel e he d w b h, fun t wf h => insert_stack_32_eq g fuel t wf e he d w b h⟩
 
 end C02
 
